@@ -248,6 +248,17 @@ func evalC04(c c04Case, o *Obs) error {
 		if _, err := n.Child(i | 0x80000000); err != hdkeychain.ErrDeriveHardFromPublic {
 			return fmt.Errorf("%s: hardened derivation from a public key returned err=%v", where, err)
 		}
+		// ... also when it comes at the end of an ascending scan: the last normal index, then the first hardened one
+		for _, j := range []uint32{0x7ffffffe, 0x7fffffff, 0x80000000, 0x80000001} {
+			ck, err := n.Child(j)
+			if j >= 0x80000000 {
+				if err != hdkeychain.ErrDeriveHardFromPublic || ck != nil {
+					return fmt.Errorf("%s: public Child(%#x) after Child(%#x) returned key %v, err=%v; want no key and ErrDeriveHardFromPublic", where, j, j-1, ck, err)
+				}
+			} else if want, rerr2 := rn.child(j); rerr2 == nil && (err != nil || ck.String() != want.String()) {
+				return fmt.Errorf("%s: public Child(%#x) = %v (err %v), BIP32 gives %s", where, j, ck, err, want.String())
+			}
+		}
 		if rerr != nil {
 			return nil // invalid child (probability 2^-127): nothing to compare
 		}
